@@ -58,7 +58,7 @@ def parseId (s : String) : Option ObjId :=
 
 def fieldNames (targets : List ObjId) : List String :=
   ["cat", "enc", "cf", "iter", "pages"] ++
-  (targets.map fun t => ["go", "gom", "gd", "pc", "pcc", "pr", "pf", "pa", "pi", "op", "fe", "nd"].map (· ++ ":" ++ idStr t)).flatten ++
+  (targets.map fun t => ["go", "gom", "gd", "pc", "pcc", "pr", "pf", "pa", "pi", "op", "fe", "nd", "ol"].map (· ++ ":" ++ idStr t)).flatten ++
   ["outl", "toc", "dests", "xt"]
 
 /-- flate2 / weezl are never consulted on the documents the `xt` field is compared on (no `Filter`) -/
@@ -125,6 +125,12 @@ def evalField (tr : Dict) (os : Objects) (_fuel : Nat) (field : String) : String
   | "nd" => (match getDictionary os t with
       | none => "err"
       | some d => outS ((namedDests os d []).map namedDigest))
+  | "ol" => (match getDictionary os t with
+      | none => "err"
+      | some d => outS ((getOutline os d []).map fun (o, _) =>
+          match o with
+          | some x => outlineDigest x
+          | none => "none"))
   | "dests" => (match (catalog tr os).bind (destTree os) with
       | none => "err"
       | some t => outS ((namedDests os t []).map namedDigest))
